@@ -159,7 +159,7 @@ PROPS = {
     },
     "C11": {
         "title": "Torn, foreign or wrong-version cache files are rejected, never half-read",
-        "units": [U4],
+        "units": [U4, U8],
         "kani": ["k9_parse_error_kinds_le96", "k2_format_constants"],
         "technique": "Verus contract on ProguardCache::parse against the frozen v1 error-kind table / layout + prefix lemmas; Kani K9 (bounded in buffer length) for the error kinds routed through `?`",
         "level_text": "Proof, for every buffer and address, that parse returns Err for too-short / misaligned buffers, the endianness / format / "
